@@ -25,7 +25,13 @@ import (
 	check "gopkg.in/check.v1"
 	"gopkg.in/tomb.v2"
 
+	"context"
+
+	"github.com/snapcore/snapd/asserts"
+	"github.com/snapcore/snapd/asserts/assertstest"
+	"github.com/snapcore/snapd/asserts/snapasserts"
 	"github.com/snapcore/snapd/dirs"
+	"github.com/snapcore/snapd/overlord/assertstate"
 	"github.com/snapcore/snapd/internal/verifsim"
 	"github.com/snapcore/snapd/overlord/configstate/config"
 	"github.com/snapcore/snapd/overlord/snapstate"
@@ -864,6 +870,57 @@ func verifBodyHistory(s *verifEngC, gc *check.C) {
 			}
 			if len(aseq[idx+1:]) > 0 {
 				c.Count("probe:revert-left-revisions-after-current")
+			}
+			// end to end: the store offers a revision this revert blocked (with or
+			// without an enforced validation set that pins the snap to exactly
+			// that revision) and everything is refreshed
+			if !notBlocked && len(aseq[idx+1:]) > 0 && c.Draw("c13-refresh-all-probe", 2) == 1 {
+				rs := aseq[idx+1:]
+				r := rs[c.Draw("c13-offered-revision", len(rs))]
+				if !s.revertedNotBlocked[r] {
+					pinned := c.Draw("c13-validation-set-pins-it", 2) == 1
+					restore := func() {}
+					if pinned {
+						restore = snapstate.MockEnforcedValidationSets(func(*state.State, ...*asserts.ValidationSet) (*snapasserts.ValidationSets, error) {
+							vs := snapasserts.NewValidationSets()
+							a := assertstest.FakeAssertion(map[string]interface{}{
+								"type": "validation-set", "authority-id": "foo", "series": "16", "account-id": "foo",
+								"name": "bar", "sequence": "2", "timestamp": "2030-11-06T09:16:26Z",
+								"snaps": []interface{}{map[string]interface{}{
+									"id": "yOqKhntON3vR7kwEbVPsILm7bUViPDzx", "name": verifSnapName, "presence": "required", "revision": strconv.Itoa(r),
+								}},
+							})
+							vs.Add(a.(*asserts.ValidationSet))
+							return vs, nil
+						})
+						assertstate.UpdateValidationSet(st, &assertstate.ValidationSetTracking{AccountID: "foo", Name: "bar", Mode: assertstate.Enforce, Current: 2})
+						c.Count("probe:refresh-all-with-validation-set-pinning-the-blocked-revision")
+					}
+					prev, hadPrev := s.fakeStore.refreshRevnos[snapID]
+					if s.fakeStore.refreshRevnos == nil {
+						s.fakeStore.refreshRevnos = map[string]snap.Revision{}
+					}
+					s.fakeStore.refreshRevnos[snapID] = snap.R(r)
+					nTasksBefore := st.TaskCount()
+					updated, _, uerr := snapstate.UpdateMany(context.Background(), st, nil, nil, s.user.ID, &snapstate.Flags{})
+					c.Logf("  refresh of everything with the store offering blocked revision %d (pinned=%v): updated=%v err=%v", r, pinned, updated, uerr != nil)
+					c.Count("probe:refresh-all-with-the-store-offering-a-blocked-revision")
+					for _, u := range updated {
+						if u == verifSnapName {
+							c.Violate("C13/blocked-revision-offered-by-refresh", "after the revert to %d a refresh of everything takes the snap to revision %d again, which the revert blocked (validation set pinning it: %v)", after.Current.N, r, pinned)
+						}
+					}
+					_ = nTasksBefore
+					if hadPrev {
+						s.fakeStore.refreshRevnos[snapID] = prev
+					} else {
+						delete(s.fakeStore.refreshRevnos, snapID)
+					}
+					if pinned {
+						assertstate.ForgetValidationSet(st, "foo", "bar", assertstate.ForgetValidationSetOpts{})
+					}
+					restore()
+				}
 			}
 		}
 		st.Unlock()
